@@ -68,9 +68,13 @@ class G:
         if self.outer is not None:
             # MacBinary: the verdict is about the whole inner stream, the bytes handed out are the data fork
             good = sup and len(data) == self.length and arc.crc16(data) == self.crc
+            # what MacBinary.tla needs to say for itself what the caller obtains (Trace_Reader compares at Reset)
+            inner = self.payload[:self.packed][:self.length] if sup else b""
+            mac = {"inner": list(inner), "fname": list(self.path.split(b"/")[-1]), "hlen": [(self.length >> 16) & 0xFFFF, self.length & 0xFFFF],
+                   "ts": [(self.time >> 16) & 0xFFFF, self.time & 0xFFFF]}
             return {"id": _hex(full), "kind": kind, "dirp": comps, "plen": len(full), "packed": self.packed,
                     "avail": self.packed if self.avail is None else self.avail, "sup": sup, "data": list(self.outer), "good": good,
-                    "macfail": bool(getattr(self, "macfail", False))}
+                    "macfail": bool(getattr(self, "macfail", False)), "mac": mac}
         good = sup and len(data) == self.length and arc.crc16(data) == self.crc and (self.avail is None or self.avail == self.packed)
         return {"id": _hex(full), "kind": kind, "dirp": comps, "plen": len(full), "packed": self.packed,
                 "avail": self.packed if self.avail is None else self.avail, "sup": sup,
